@@ -10,6 +10,7 @@ LEVEL = "proof"
 def regenerate(res):
     import attrlib
     attrlib.regenerate_pyfront(res)
+    common.regenerate_with(res, "ctxmgr2gallina", "CtxMgrGen.v", "T21: DigitalRFWriter.close / __enter__ / __exit__")
 
 
 def run(res):
